@@ -42,6 +42,8 @@ def class_source(c, classes):
         lines.append(f"        name = {c['name']!r}")
     if c.get('abstract'):
         lines.append('        abstract = True')
+    elif 'abstract' in c:
+        lines.append('        abstract = False')      # a Meta that says so explicitly (inherited from an abstract base, switched off)
     metas = []
     for r in c['meta_inputs']:
         metas.append(repr(r['name']) if 'name' in r else classes[r['cls']]['cname'])
